@@ -26,7 +26,9 @@ ASSUMPTIONS = [
     "not judged (the unchanged code lets the TypeError of the comparison through, which corrupts nothing)",
     "SortedSet.pop() may remove any element (set.pop contract); SortedMap.popitem() any pair",
 ]
-NCASES = {"quick": 8000, "thorough": 400000}
+BASE_CASES = {"quick": 8000, "thorough": 400000}
+# indices above BASE_CASES are the "quiet" histories (see gen_quiet); the cases below them are what they always were
+NCASES = {"quick": 9600, "thorough": 480000}
 NSHARDS = 16
 SHARD_TIMEOUT = {"quick": 300, "thorough": 3600}
 MOD = "vf.checks.c09"
@@ -42,7 +44,32 @@ MAP_OPS = ["store", "store", "delete", "pop", "popitem", "setdefault", "update",
            "probe", "clear", "bad_store", "clone"]
 
 
+QUIET_SET_OPS = ["in", "add", "remove", "discard", "add", "in", "len"]
+QUIET_MAP_OPS = ["in", "lookup", "get", "store", "delete", "pop", "setdefault", "store"]
+
+
+def gen_quiet(rng, tier, index):
+    """A history over a handful of keys that is observed *without searching*: after each step only iteration and len() are
+    compared (neither looks a key up), the membership / lookup probes of every key come once, at the end. The per-step
+    probes of the ordinary cases are themselves searches, always ending with the same key: state that an operation leaves
+    behind for the next search (a remembered position, a cached answer) is overwritten by them before the next operation
+    of the history runs. Here the searches are those of the history only."""
+    kind = "set" if index % 2 == 0 else "map"
+    sub = rng.sample(range(len(POOL)), rng.choice([3, 4, 5, 6]))
+    init = [k for k in sub if rng.random() < 0.6] or [sub[0]]
+    if rng.random() < 0.3:
+        init += [rng.choice(init)]
+    rng.shuffle(init)
+    names = QUIET_SET_OPS if kind == "set" else QUIET_MAP_OPS
+    ops = [[rng.choice(names), rng.choice(sub), rng.randrange(1000), rng.randrange(1 << 16)]
+           for _ in range(rng.randint(3, 40 if tier == "quick" else 80))]
+    return {"kind": kind, "form": rng.choice(["list", "gen"] if kind == "set" else ["pairs", "dict", "gen"]), "init": init,
+            "ops": ops, "quiet": True}
+
+
 def gen_case(rng, tier, index):
+    if index >= BASE_CASES[tier]:
+        return gen_quiet(rng, tier, index)
     if index % 400 in (7, 8):
         return {"big": True, "kind": "set" if index % 2 else "map", "n": rng.choice([1100, 2100, 4200, 1025]), "seed": rng.randrange(1 << 30),
                 "ops": [], "form": "big", "init": []}
@@ -169,7 +196,7 @@ def build(case):
     return got[1], model, desc
 
 
-def check_state(kind, s, model, desc):
+def check_state(kind, s, model, desc, probes=True):
     got = _g("iteration", lambda: list(s))
     if got[0] != "ok":
         raise Violation("iteration-raised", f"after {desc}: iteration raised {got[1]}", {})
@@ -183,6 +210,8 @@ def check_state(kind, s, model, desc):
         raise Violation(mech, f"after {desc}: content {keys!r}, reference {want!r}", {})
     if len(s) != len(want):
         raise Violation("len-mismatch", f"after {desc}: len {len(s)}, reference {len(want)}", {})
+    if not probes:
+        return
     for k in POOL:
         g = _g("membership", lambda: k in s)
         if g != ("ok", k in model):
@@ -298,6 +327,7 @@ def run_case(case, res):
     # a second sorted structure of the same process holds strings; asking it for a number is a foreign-typed probe (absent)
     from windpyutils.structures.sorted import SortedSet as _SS
     words = _SS(["alpha", "beta", "gamma"])
+    quiet = bool(case.get("quiet"))
     for step, (op, ki, v, aux) in enumerate(case["ops"]):
         k = common.fresh(POOL[ki])     # an equal number, not the identical object
         if step % 11 == 4:
@@ -531,10 +561,15 @@ def run_case(case, res):
             pass
         res.evaluations += 1
         res.count(f"op_{kind}_{op}")
-        check_state(kind, s, model, desc)
+        check_state(kind, s, model, desc, probes=not quiet)
+        if quiet:
+            res.count("quiet_steps_observed_without_search")
         if len(model) >= 2:
             res.seen((kind, tuple(repr(float(x)) if x not in BIG_INTS else _short(x)
                                   for x in sorted(model))))
+    if quiet:
+        check_state(kind, s, model, f"the whole quiet history of {len(case['ops'])} operations")
+        res.count("quiet_histories")
 
 
 def plan(tier, seed):
